@@ -464,7 +464,17 @@ def r9_reference_feature(ctx):
              forbidden=[r"zeros_like\(\$k0\[", r"\$k0\[:\s*1\]", r"\$k0\[0:\s*1\]", r"\$k0\[:0\]"], construct="padded deltas")
 
 
+def r10_read_api_stores_nothing(ctx):
+    from ._shared import model_stores_in_read_api
+    ctx.rule("C09.R10", "estimate / compute_*_trajectory (and the model methods they reach) store nothing on the model object", 1)
+    sites, n_region = model_stores_in_read_api(ctx)
+    for f, st, attr in sites:
+        ctx.violation("C09.R10", f, st, f"`{U(st)[:70]}` stores `self.{attr}` from a method reached by estimate / compute_individual_trajectory: the trajectory is then computed from what an earlier call left there (its parameters, its ages, a state from before the last fit), not from this call's inputs and the current model")
+    ctx.ok("C09.R10", ("leaspy.models", "<package>"), None, f"{n_region} functions reachable from the read-only API: no attribute of the model is written", construct="read-only API")
+
+
 def rules(ctx):
+    r10_read_api_stores_nothing(ctx)
     r9_reference_feature(ctx)
     r1_rt(ctx)
     r2_forms(ctx)
